@@ -193,7 +193,7 @@ Definition check_case (c : mcase) : N :=
    evidence is silently dropped outside the known class; 52 the same inside the known class K1. ---- *)
 Definition word_join (a b : te) : option te :=     (* None = top *)
   match a, b with
-  | Word wl ul, Word wr ur => option_map word_of (wordev_join (wl, ul) (wr, ur))
+  | Word wl ul, Word wr ur => option_map word_of (wordev_join_s (wl, ul) (wr, ur))   (* the SPECIFICATION's join *)
   | _, _ => None
   end.
 
@@ -250,7 +250,7 @@ Definition check_case15 (c : mcase) : N :=
       | [] => 0
       | Word w u :: ws =>
           let fam := flat_map (fun t => match t with Word w' u' => [(w', u')] | _ => [] end) ws in
-          match final_expr ch, wordev_join_all (w, u) fam with
+          match final_expr ch, wordev_join_all_s (w, u) fam with
           | Some e, Some j => if te_eqb e (word_of j) then 0 else 16
           | Some e, None => if is_conflict e then 0 else 16
           | None, _ => 12
